@@ -257,6 +257,8 @@ int main(int argc, char** argv) {
         U = S; U *= U; U *= U; { IntervalMatrix S2 = S * S; EMIT("vecop mul %s %s => %s\n", vh::mtok(S2).c_str(), vh::mtok(S2).c_str(), vh::mtok(U).c_str()); }
         Interval q = s; q *= q; EMIT("vecop mul %s %s => %s\n", ss.c_str(), ss.c_str(), vh::mtok(q).c_str()); q = s; q += q; EMIT("vecop add %s %s => %s\n", ss.c_str(), ss.c_str(), vh::mtok(q).c_str());
         q = s; q -= q; EMIT("vecop sub %s %s => %s\n", ss.c_str(), ss.c_str(), vh::mtok(q).c_str());
+        { IntervalVector t2 = x; int ci = r.below(b); Interval sc = x[ci]; t2 *= t2[ci]; EMIT("vecop scale %s %s => %s\n", vh::mtok(sc).c_str(), xs.c_str(), vh::mtok(t2).c_str());       // the scalar is a component of the vector itself
+          IntervalMatrix T2 = A; int ri = r.below(a), cj = r.below(b); Interval sm2 = A[ri][cj]; T2 *= T2[ri][cj]; EMIT("vecop scale %s %s => %s\n", vh::mtok(sm2).c_str(), As.c_str(), vh::mtok(T2).c_str()); }
         rm("in-place-aliased"); }
     }
   } else { fprintf(stderr, "unknown workload\n"); return 2; }
